@@ -35,6 +35,10 @@ type Type struct {
 	Key   *Type // map key
 	Slice bool  // set annotated (go.type = "slice")
 	Ref   *Def  // Named
+	// Ann is an annotation on a container type that means nothing to the generator: the
+	// (go.type = "slice") of sets on a list or a map, another go.type on a set. It must change
+	// neither the generated code nor what plugins are told.
+	Ann string
 }
 
 type DefKind int
